@@ -51,6 +51,8 @@ def run(ctx) -> None:
     from . import c08
 
     ctx.reuse("C03.tracked-amount", c08.trough_predicate)
+    for dev in concrete_devices(ctx):
+        ctx.reuse("C03.tracked-amount", c01.numbering_hook, dev)
     ctx.reuse("C03.step-guard", c06.config)
     from . import c13
 
@@ -134,8 +136,20 @@ def _max_guard(fv, at: int):
     """Raising guards of the form `[max_volume is not None and] X > max_volume` that dominate `at`."""
     out = []
     for n, test, pol_raise, r in fv.raising_guards():
-        if not pol_raise or not fv.cfg.dominates(n.id, at):
+        if not pol_raise:
             continue
+        if not any(isinstance(x, ast.Name) and x.id == "max_volume" or isinstance(x, ast.Attribute) and x.attr == "max_volume" for x in ast.walk(test)):
+            continue  # another range check (text length, position, ...)
+        if not fv.cfg.dominates(n.id, at):
+            # nested form: `if max_volume is not None:` / `if volume > max_volume: raise` - the outer test dominates the return
+            ctrl = fv.controlling(n.id, skip_raising=True)
+            outer_ok = len(ctrl) == 1 and ctrl[0][1] and fv.cfg.dominates(ctrl[0][0], at)
+            if outer_ok:
+                ot = fv.res.resolve(fv.cfg.nodes[ctrl[0][0]].ast, ctrl[0][0])
+                outer_ok = isinstance(ot, ast.Compare) and len(ot.ops) == 1 and isinstance(ot.ops[0], ast.IsNot) and isinstance(ot.comparators[0], ast.Constant) and ot.comparators[0].value is None \
+                    and (is_name(ot.left, "max_volume") or (isinstance(ot.left, ast.Attribute) and ot.left.attr == "max_volume"))
+            if not outer_ok:
+                continue
         parts = test.values if isinstance(test, ast.BoolOp) and isinstance(test.op, ast.And) else [test]
         cmp_part = None
         others_ok = True
@@ -477,8 +491,19 @@ def exit_saves(ctx, rule: str) -> None:
         ok = True
         detail = ""
         selfn = f.params[0]
+        pols = dict(fv.controlling(sv.node))
         for d in tests:
             t = fv.cfg.nodes[d].ast
+            pol_ = pols.get(d, True)
+            while isinstance(t, ast.UnaryOp) and isinstance(t.op, ast.Not):
+                t, pol_ = t.operand, not pol_
+            if isinstance(t, ast.Compare) and len(t.ops) == 1 and isinstance(t.ops[0], ast.Is) and not pol_:
+                # reached when `x is None` is false: the same as `x is not None` being true
+                t, pol_ = ast.Compare(left=t.left, ops=[ast.IsNot()], comparators=t.comparators), True
+            if not pol_:
+                ok = False
+                detail = f"saving happens when `{stmt_key(t)}` is false"
+                continue
             simple = attr_of_name(t, selfn, "_filepath") or attr_of_name(t, selfn, "filepath") or (
                 isinstance(t, ast.Compare) and len(t.ops) == 1 and isinstance(t.ops[0], ast.IsNot) and (attr_of_name(t.left, selfn, "_filepath") or attr_of_name(t.left, selfn, "filepath"))
                 and isinstance(t.comparators[0], ast.Constant) and t.comparators[0].value is None)
